@@ -328,6 +328,28 @@ func checkTree(c *pbt.Ctx, cs TreeCase) {
 	if d := tm.Diff(tm.Canon(got), tm.Canon(expected)); d != "" {
 		c.Failf("marshal-different-value", "Marshal after edits: %s\n got  %s\n want %s", d, got.Short(), expected.Short())
 	}
+	// the bytes returned by Marshal stay what they are while another tree is marshalled
+	keep := append([]byte(nil), out...)
+	otherV := cs.V.Clone()
+	tm.Walk(otherV, func(_ []tm.Step, n *tm.Value, _ *tm.Value) {
+		if n.K == tm.STRING {
+			n.S = bytes.Repeat([]byte{'Z'}, len(n.S))
+		}
+		if n.K == tm.I32 || n.K == tm.I64 {
+			n.I ^= 0x55
+		}
+	})
+	c.Step("Marshal of another tree; the first result must not change")
+	c.Protect("", func() {
+		oenc := tm.Encode(otherV)
+		ot := generic.PathNode{Node: generic.NewNode(thrift.Type(otherV.K), append(make([]byte, 0, len(oenc)+16), oenc...))}
+		if err := ot.Load(true, o); err == nil {
+			_, _ = ot.Marshal(o)
+		}
+	})
+	if !bytes.Equal(out, keep) {
+		c.Failf("result-overwritten", "the bytes returned by Marshal (%d) changed while another tree was marshalled", len(out))
+	}
 	if sets >= 1 && clears >= 1 && deep >= 1 {
 		c.NonTrivial()
 	}
@@ -345,7 +367,7 @@ var treeCfg = tm.GenCfg{MaxDepth: 3, BigSizes: true, BigIDs: true, WireOrder: tr
 
 var TreeProp = pbt.Register(pbt.Prop[TreeCase]{
 	Name: "TestDomTree",
-	Rule: "generated value of any shape (every container and key kind) loaded recursively or lazily (optionally into a tree that held another value loaded in the other mode) under StoreChildrenById/StoreChildrenByHash/NotScanParentNode, then 1..10 edits at any depth: a child replaced through SetField/SetByStr/SetByInt or by assigning the child PathNode (list/set elements and bool/double/struct-keyed entries have no setter), cleared (empty Node) or reset (ResetValue), new fields/keys added, inner children expanded lazily on the way down; after every edit the lookup returns the child just stored; the final Marshal must decode to the model value without the cleared children; non-trivial = a set, a clear and an edit below depth 1",
+	Rule: "generated value of any shape (every container and key kind) loaded recursively or lazily (optionally into a tree that held another value loaded in the other mode) under StoreChildrenById/StoreChildrenByHash/NotScanParentNode, then 1..10 edits at any depth: a child replaced through SetField/SetByStr/SetByInt or by assigning the child PathNode (list/set elements and bool/double/struct-keyed entries have no setter), cleared (empty Node) or reset (ResetValue), new fields/keys added, inner children expanded lazily on the way down; after every edit the lookup returns the child just stored; the final Marshal must decode to the model value without the cleared children and its bytes must stay intact while another tree is marshalled; non-trivial = a set, a clear and an edit below depth 1",
 	Gen: func(t *rapid.T) TreeCase {
 		u := tm.GenUniverse(t, treeCfg)
 		if !isComplex(u.Root.K) {
